@@ -120,6 +120,17 @@ reg('C07', 'exploration',
     'mirror face coincides with its image); threshold band 1e-12 of the '
     'period.')
 
+reg('C11', 'exploration',
+    'dump/load round-trip monitor: structural comparison (name, property '
+    'set, C type, stride, default, constants, output list, stored values, '
+    'solver data) of the loaded arrays with the originals for all 16 format '
+    'x compress x detailed x only_real combinations plus version-1 files',
+    'Held on every generated list of arrays (random property names / types '
+    '/ strides / defaults, constants of length 1-9, mixed tags, zero '
+    'particles): 320 cases x 17 round trips per quick run.',
+    'Stored values compared positionally on aligned arrays; version-1 files '
+    'hold stride-1 double properties only.')
+
 _pending = {
 }
 for _i in range(1, 21):
